@@ -14,6 +14,8 @@ import inspect
 import math
 import operator
 
+import sys
+
 import numpy as np
 
 from .. import catalogue as cat
@@ -270,6 +272,21 @@ def members(c):
     return out
 
 
+_DEFAULT_PRINT = None
+
+
+def _restore_state(ps0):
+    if _DEFAULT_PRINT is not None:
+        np.set_printoptions(**_DEFAULT_PRINT)
+
+
+def process_state():
+    """process-wide settings a library call has no business changing: they alter what later, unrelated calls return"""
+    import warnings
+    po = np.get_printoptions()
+    return (tuple(sorted((k, repr(v)) for k, v in po.items())), tuple(sorted(np.geterr().items())), len(warnings.filters), sys.getrecursionlimit())
+
+
 def run_member(ctx, p):
     c, name, kind, m = p['cls'], p['name'], p['kind'], p['m']
     rng = np.random.default_rng(p['seed'])
@@ -308,12 +325,19 @@ def run_member(ctx, p):
     x_twin = clone(x)          # equal but separate receiver for the second evaluation
     for a, thunk in calls:
         before = snapshot((x, a))
+        ps0 = process_state()
         try:
             out1 = thunk()
             raised = None
         except Exception as e:
             out1, raised = None, e
         after = snapshot((x, a))
+        ps1 = process_state()
+        ctx.judge('deterministic', ps1 == ps0, dict(sig, kind='process_state_changed'),
+                  lambda: '%s.%s changed process-wide state (NumPy print options / error state / warning filters): %s -> %s' % (
+                      c, name, [u for u in ps0 if u not in ps1], [u for u in ps1 if u not in ps0]))
+        if ps1 != ps0:
+            _restore_state(ps0)
         if raised is None and name not in ('__iter__',):
             # same call on equal inputs must give an equal output
             try:
@@ -372,6 +396,14 @@ def pool_ops():
         ('Twist3.unit', ['Twist3'], lambda t: t.unit), ('Twist3.ad', ['Twist3'], lambda t: t.ad()), ('Twist3*SE3', ['Twist3', 'SE3'], operator.mul),
         ('Plucker.PQ', ['v3', 'v3'], lambda p, q: sm.Plucker.PQ(p, q)), ('Plucker.vec', ['Plucker'], lambda L: L.vec), ('SE3*Plucker', ['SE3', 'Plucker'], operator.mul),
         ('Plucker.pp', ['Plucker'], lambda L: L.pp), ('Plucker.closest', ['Plucker', 'v3'], lambda L, v: L.closest(v).p),
+        ('SVel(v6)', ['v6'], lambda v: sm.SpatialVelocity(v)), ('SFor(v6)', ['v6'], lambda v: sm.SpatialForce(v)), ('SVel(SVel)', ['SVel'], lambda a: sm.SpatialVelocity(a)),
+        ('SVel.copy', ['SVel'], lambda a: a.copy()), ('SAcc(SVel)', ['SVel'], lambda a: sm.SpatialAcceleration(a)), ('SVel+SVel', ['SVel', 'SVel'], lambda a, c: a + c if len(a) == len(c) else None),
+        ('SE3*SVel', ['SE3', 'SVel'], lambda X, a: X * a if len(X) == 1 else None), ('SVel.cross(SFor)', ['SVel', 'SFor'], lambda a, f: a.cross(f) if len(a) in (1, len(f)) or len(f) == 1 else None),
+        ('SE3(SE3).copy', ['SE3'], lambda X: X.copy()), ('UQ(UQ)', ['UQ'], lambda q: sm.UnitQuaternion(q)), ('Twist3(Twist3)', ['Twist3'], lambda t: sm.Twist3(t)),
+        ('Plucker(Plucker)', ['Plucker'], lambda L: sm.Plucker(L)),
+        ('!SVappend', ['SVel', 'SVel'], lambda X, Y: X.append(sm.SpatialVelocity(Y.data[0]))), ('!SVreverse', ['SVel'], lambda X: X.reverse()),
+        ('!SVpop', ['SVel'], lambda X: X.pop() if len(X) > 1 else None), ('!Tw3append', ['Twist3', 'Twist3'], lambda X, Y: X.append(sm.Twist3(Y.data[0]))),
+        ('!Plappend', ['Plucker', 'Plucker'], lambda X, Y: X.append(sm.Plucker(Y.data[0])) if len(Y) >= 1 else None),
         # documented mutators: only the receiver (first operand) may change
         ('!append', ['SE3', 'SE3'], lambda X, Y: X.append(sm.SE3(Y.data[0], check=False))), ('!extend', ['SE3', 'SE3'], lambda X, Y: X.extend(Y)),
         ('!insert', ['SE3', 'SE3'], lambda X, Y: X.insert(0, sm.SE3(Y.data[0], check=False))), ('!pop', ['SE3'], lambda X: X.pop() if len(X) > 1 else None),
@@ -396,6 +428,8 @@ def classify(v):
     n = type(v).__name__
     if n in ('SE3', 'SO3', 'Twist3', 'Plucker'):
         return n
+    if n in ('SpatialVelocity', 'SpatialForce'):
+        return {'SpatialVelocity': 'SVel', 'SpatialForce': 'SFor'}[n]
     if n == 'UnitQuaternion':
         return 'UQ'
     return None
@@ -406,7 +440,7 @@ def run_history(ctx, p):
     rng = np.random.default_rng(p['seed'])
     steps = p['steps']
     ops = pool_ops()
-    pool = {k: [] for k in ['T3', 'R3', 'v3', 'v6', 'q', 'SE3', 'SO3', 'UQ', 'Twist3', 'Plucker']}
+    pool = {k: [] for k in ['T3', 'R3', 'v3', 'v6', 'q', 'SE3', 'SO3', 'UQ', 'Twist3', 'Plucker', 'SVel', 'SFor']}
 
     def seedpool():
         for _ in range(3):
@@ -420,6 +454,8 @@ def run_history(ctx, p):
             pool['UQ'].append(sm.UnitQuaternion(gen.unit_quat(rng)))
             pool['Twist3'].append(sm.Twist3(gen.vec(rng, 6, 1e-2, 1)))
             pool['Plucker'].append(sm.Plucker.PQ(gen.vec(rng, 3, 1e-1, 1e1), gen.vec(rng, 3, 1e-1, 1e1)))
+            pool['SVel'].append(sm.SpatialVelocity(gen.vec(rng, 6, 1e-1, 1e1)))
+            pool['SFor'].append(sm.SpatialForce(gen.vec(rng, 6, 1e-1, 1e1)))
         pool['SE3'].append(sm.SE3([gen.se3(rng, hi=1e2) for _ in range(3)]))
     seedpool()
     members_ = lambda: [(k, i, v) for k, L in pool.items() for i, v in enumerate(L)]
@@ -460,6 +496,11 @@ def run_history(ctx, p):
 
 
 RUNNERS = {'call': run_call, 'member': run_member, 'history': run_history}
+
+
+def setup(ctx):
+    global _DEFAULT_PRINT
+    _DEFAULT_PRINT = dict(np.get_printoptions())
 
 
 # ----------------------------------------------------------------------------- workload
